@@ -13,6 +13,18 @@ for pid in ALL:
     level = cfg["level"] if cfg.get("theorems") else "translation_validation"
     if cfg.get("level") == "other":
         level = "other"
+    trs = [t["name"] for t in cfg.get("translators", [])]
+    mods = ([cfg["proof_module"]] if cfg.get("proof_module") else []) + [e["module"] for e in cfg.get("extra_modules", [])]
+    nthm = len(set(cfg.get("theorems", []))) + sum(len(e["theorems"]) for e in cfg.get("extra_modules", []))
+    tie = ""
+    if trs:
+        tie = (" Regenerated from /repo on every run by the translators [" + ", ".join(trs) + "] (Generated/*.lean); bridge theorems prove the "
+               "regenerated definitions equal to the hand-written model, so a change to that source text must re-check them.")
+    text = cfg.get("claim", cfg["rule"]) + tie + f" {nthm} theorems in {len(mods)} proof modules are audited (#print axioms) on every run."
+    technique = ("Lean 4: theorems about an executable model; model tied to the code by (a) translators that regenerate Lean definitions from the Go source "
+                 "on every run with bridge theorems to the hand-written model"
+                 + (" [" + ", ".join(trs) + "]" if trs else " [none for this property]")
+                 + " and (b) a correspondence run of model and implementation on one op stream, judged by an executable Lean specification")
     checks.append({
         "property_id": pid,
         "quick_cmd": f"bin/check {pid} --tier quick",
@@ -20,9 +32,9 @@ for pid in ALL:
         "evidence_file": f"/verif/evidence/{pid}.json",
         "replay_cmd_template": f"bin/check {pid} --replay {{path}}",
         "engine": "lean4-model+correspondence",
-        "level_claimed": {"category": level, "text": cfg.get("claim", cfg["rule"]), "design_ref": cfg.get("design_ref", "DESIGN.md section 5, " + pid)},
-        "level_note": cfg.get("note", "Lean kernel; axioms propext/Classical.choice/Quot.sound only; hand-written model tied to /repo by the correspondence run; float bridge of DESIGN.md section 3"),
-        "technique": cfg.get("technique", "Lean 4 theorems about a model of the code + model/implementation correspondence on the same op stream"),
+        "level_claimed": {"category": level, "text": text, "design_ref": cfg.get("design_ref", "DESIGN.md section 5, " + pid)},
+        "level_note": cfg.get("note", "Lean kernel; axioms propext/Classical.choice/Quot.sound only; model tied to /repo by regenerated definitions + bridge theorems where listed, and by the correspondence run; float bridge proved (DESIGN.md section 3)"),
+        "technique": cfg.get("technique", technique),
     })
 na = [{"property_id": p, "reason": props.NOT_YET.get(p, "check not built yet")} for p in ALL if p not in props.PROPS]
 m = {
